@@ -53,6 +53,18 @@ def monitor_violations(asm, case, text, schedule, early, out, ref_lists_ok=None)
                 import ast
 
                 feats["exists_at_end"] = isinstance(asm._walk(ast.literal_eval(mm.group(1))), dict)
+            # F20's mechanism: a statically enclosing fragment of the announced one was skipped (pruned by the
+            # work queue, never announced).  Without that the violation has another cause.
+            mi = re.search(r"^id (\S+) path", detail)
+            me = next(((p_, lab) for i_, p_, lab in asm.announced if mi and str(i_) == mi.group(1)), None)
+            skipped = False
+            if me is not None and me[1] is not None:
+                for enc, rels in (asm.nesting.get(me[1]) or {}).items():
+                    seen = any(lab == enc and me[0][:len(q)] == q
+                               and tuple(k for k in me[0][len(q):] if not isinstance(k, int)) in rels
+                               for _i, q, lab in asm.announced)
+                    skipped = skipped or not seen
+            feats["parent_skipped"] = skipped
         if rule == "completed-for-unknown-id":
             feats["unannounced"] = "ever announced: False" in detail
             feats["with_errors"] = "with errors: True" in detail
@@ -362,11 +374,11 @@ def subchecks(tier):
     if tier == "quick":
         return [Sub("end_to_end", _end_to_end(350, 4), shards=8, weight=2),
                 # every graph with <= 2 groups, <= 2 tasks, <= 1 stream x every completion order (depth-first
-                # over the schedule tree, capped at 600 orders per graph; the class histogram in the evidence
+                # over the schedule tree, capped at 400 orders per graph; the class histogram in the evidence
                 # says how many graphs were enumerated completely)
-                Sub("work_queue", _work_queue(2, 2, 1, 600, 1), shards=6, weight=1),
+                Sub("work_queue", _work_queue(2, 2, 1, 400, 1), shards=6, weight=1),
                 # a slice of the 3-group graphs (forests with a grandchild / two children), no streams
-                Sub("work_queue_3g", _work_queue(3, 2, 0, 300, 3), shards=2, weight=1),
+                Sub("work_queue_3g", _work_queue(3, 2, 0, 200, 4), shards=2, weight=1),
                 # 576 graphs with a chain of three fragments and a separate root, every order
                 Sub("work_queue_chain", _work_queue("chain", 3, 0, 600, 1), shards=1, weight=1)]
     return [Sub("end_to_end", _end_to_end(4000, 12), shards=16, weight=2),
